@@ -30,7 +30,7 @@ FUNCTIONS = [
 ]
 MUST_REACH = ["mbox.Mailbox._mbox_pattern_to_re", "mbox.Mailbox.list", "mbox.Mailbox._list_simple", "mbox.Mailbox.create", "mbox.Mailbox.delete", "mbox.Mailbox.rename", "mbox._helper_rename_folder", "client.Authenticated.do_list"]
 BOUNDS = {
-    "quick": {"patterns": "all strings <= 3 over {a, b, /, %, *, ., +, SP, (} with references '' and 'a/' (each an equivalence query over names of unbounded length)", "histories": "2 commands from a menu of 20 namespace commands, then 10 LIST/LSUB probes"},
+    "quick": {"patterns": "all strings <= 3 over {a, b, /, %, *, ., +, SP, (} with references '' and 'a/' (each an equivalence query over names of unbounded length)", "histories": "2 commands from a menu of 20 namespace commands, then 10 LIST/LSUB probes", "rename_step": "every subset of 7 names {a, a/a, a/b, a/ab, ab, b, a/b/a} created, then one of 8 RENAMEs, then the probes"},
     "thorough": {"patterns": "length <= 4", "histories": "3 commands, restart inserted at a symbolic position"},
 }
 SYMBOLIC = ["mailbox name witness (z3 strings, unbounded)", "history selectors", "restart position"]
@@ -165,8 +165,33 @@ def history(c2: int, c3: int, rs: int) -> bool:
 
 def _history(c1, c2, c3, rs):
     k = core.PARAMS["k"]
-    tag = "history"
     cmds = [MENU[c] for c in (c1, c2, c3)[:k]]
+    _run_cmds(cmds, rs, "history")
+
+
+UNIVERSE = ["a", "a/a", "a/b", "a/ab", "ab", "b", "a/b/a"]
+PAIRS = [("a", "d"), ("a", "b"), ("a/a", "c"), ("ab", "a/q"), ("a/b", "ab/b"), ("b", "a/b/n"), ("a/b", "a/bb"), ("inbox", "a/old")]
+
+
+def rename_step(bits: int, pair: int) -> bool:
+    """
+    pre: core.PARAMS.get("lo", 0) <= bits < core.PARAMS.get("hi", 128) and pair == core.PARAMS["pair"]
+    post: _
+    """
+    return held(_rename_step, {"bits": core.pick(bits, core.PARAMS.get("lo", 0), core.PARAMS.get("hi", 128)), "pair": core.PARAMS["pair"]})
+
+
+def _rename_step(bits, pair):
+    """
+    One RENAME from an arbitrary namespace over a universe of names chosen for
+    their prefix relations (a vs ab, a/a, a/ab, a/b/a): whole subtree moves,
+    nothing else does.
+    """
+    cmds = [("create", n) for i, n in enumerate(UNIVERSE) if (bits >> i) & 1] + [("rename",) + PAIRS[pair]]
+    _run_cmds(cmds, 0, "rename_step")
+
+
+def _run_cmds(cmds, rs, tag):
     w = World(db="sqlite")
     inbox = w.mailbox("inbox", [1], [1], {"Seen": {1}}, contents=[b"m"], mtimes=[5])
     S = w.session("S")
@@ -223,7 +248,7 @@ def _history(c1, c2, c3, rs):
             if not ok and ref.endswith("/"):
                 # known: the parser normalises the reference and drops its trailing hierarchy delimiter
                 alt = models[0].listing(ref.rstrip("/"), pat, lsub=lsub)
-                check(got != alt, f"C17/{tag}/list_reference_loses_trailing_delimiter", probe=f"{word} {ref!r} {pat!r}", got=sorted(x[0] for x in got), expected=sorted(x[0] for x in exps[0]))
+                check(got != alt, "C17/history/list_reference_loses_trailing_delimiter", probe=f"{word} {ref!r} {pat!r}", got=sorted(x[0] for x in got), expected=sorted(x[0] for x in exps[0]))
             if not ok:
                 exp = exps[0]
                 gn, en = {x[0] for x in got}, {x[0] for x in exp}
@@ -257,10 +282,14 @@ def jobs(tier):
         for c1 in range(20):
             js.append({"name": f"history[k=3,c1={c1}]", "fn": "history", "params": {"k": 3, "c1": c1, "restart": False}, "timeout": 3000, "per_path": 120, "unblock": UNBLOCK})
             js.append({"name": f"history[k=2,restart,c1={c1}]", "fn": "history", "params": {"k": 2, "c1": c1, "restart": True}, "timeout": T, "per_path": 120, "unblock": UNBLOCK})
+    for pair in range(len(PAIRS)):
+        for lo in range(0, 128, 32):
+            js.append({"name": f"rename_step[{PAIRS[pair][0]}->{PAIRS[pair][1]},{lo}]", "fn": "rename_step", "params": {"pair": pair, "lo": lo, "hi": lo + 32}, "timeout": T if q else 1200, "per_path": 120, "unblock": UNBLOCK})
     return js
 
 
 SAMPLES = [
+    {"fn": "rename_step", "params": {"pair": 0}, "args": {"bits": 127, "pair": 0}},
     {"fn": "history", "params": {"k": 3, "restart": True, "c1": 1}, "args": {"c2": 9, "c3": 5, "rs": 2}},
     {"fn": "history", "params": {"k": 2, "restart": False, "c1": 2}, "args": {"c2": 8, "c3": 0, "rs": 0}},
 ]
